@@ -11,7 +11,7 @@ give a dict-like API to a synchronized data structure.
 from collections.abc import Mapping, MutableMapping
 
 from ..utils import AbstractTypeResolver
-from .synced_collection import SyncedCollection, _sc_resolver
+from .synced_collection import SyncedCollection, _detach_synced, _sc_resolver
 
 # Identifies mappings, which are the base type for this class.
 _mapping_resolver = AbstractTypeResolver(
@@ -194,6 +194,7 @@ class SyncedDict(SyncedCollection, MutableMapping):
 
         """
         if _mapping_resolver.get_type(data) == "MAPPING":
+            data = _detach_synced(data)
             with self._overwrite_context():
                 self._update(data)
         else:
@@ -240,6 +241,8 @@ class SyncedDict(SyncedCollection, MutableMapping):
                 other = dict(other)
         else:
             other = {}
+        other = _detach_synced(other)
+        kwargs = _detach_synced(kwargs)
 
         with self._load_and_save:
             # The order here is important to ensure that the promised sequence of
